@@ -988,3 +988,26 @@ def definition_loop_locality(ctx, rid):
     ok = all(t.endswith("module_ir::ModuleIR") for t, _c in outer)
     ctx.expect(ok and outer, rid, "loop-locality", site(loop), "entries communicate only through the path-keyed module map (%s)" % sorted(c for _t, c in outer),
                "state carried across registry entries: %s" % sorted(outer))
+
+
+# ---------------------------------------------------------------------- C18 ----
+def upcast(ctx, rid):
+    """K4+K5+K12: standalone struct IR from a composite: no params, default derives (+CompactAs), settings' codec flag, same composite"""
+    fn = q.fn1(ctx.P, "TypeGenerator::<'a>::upcast_composite", "scale_typegen")
+    if fn is None:
+        ctx.bad(rid, "missing-anchor/upcast_composite", "", "upcast_composite not found")
+        return
+    t = _norm(ctx, fn).term(fn["body"])
+    if t[0] != "struct" or not t[1].endswith("type_ir::TypeIR"):
+        ctx.bad(rid, "upcast/result", fn["sp"], "upcast_composite does not return a TypeIR literal: " + show(t)[:200])
+        return
+    f = t[3]
+    expect_term(ctx, rid, "upcast/derives", fn["sp"], f["derives"],
+                "mut[DerivesRegistry::default_derives(P0.settings.derives);TypeGenerator::add_as_compact_derive(P0,&self) if CompositeIRKind::could_derive_as_compact(P1.kind)]",
+                "exactly the global derives/attributes, plus CompactAs under the single-unsigned-field rule")
+    expect_term(ctx, rid, "upcast/type-params", fn["sp"], f["type_params"], "TypeParameters::from_scale_info([])", "no generic parameters")
+    expect_term(ctx, rid, "upcast/codec-flag", fn["sp"], f["insert_codec_attributes"], "P0.settings.insert_codec_attributes", "codec attributes as configured")
+    expect_term(ctx, rid, "upcast/kind", fn["sp"], f["kind"], "TypeIRKind::Struct(P1)", "the struct's payload is the given composite itself")
+    dd = q.fn1(ctx.P, "DerivesRegistry::default_derives", "scale_typegen")
+    if dd is not None:
+        expect_term(ctx, rid, "upcast/default-derives", dd["sp"], _norm(ctx, dd).term(dd["body"]), "P0.default_derives", "default_derives() is the global set")
